@@ -281,10 +281,16 @@ namespace sbepp
 // `begin` can be past `end` for views created at a dynamic offset read from a
 // truncated or corrupted buffer, `end - begin` must not be treated as a huge
 // unsigned value in that case
-#define SBEPP_SIZE_CHECK(begin, end, offset, size) \
-    SBEPP_ASSERT(                                  \
-        (begin) && ((begin) <= (end))              \
-        && (((offset) + (size)) <= static_cast<std::size_t>((end) - (begin))))
+// `offset` and `size` are checked separately because their sum can overflow
+// when `size` comes from an untrusted 64-bit length
+#define SBEPP_SIZE_CHECK(begin, end, offset, size)                         \
+    SBEPP_ASSERT(                                                          \
+        (begin) && ((begin) <= (end))                                      \
+        && (static_cast<std::size_t>(size)                                 \
+            <= static_cast<std::size_t>((end) - (begin)))                  \
+        && (static_cast<std::size_t>(offset)                               \
+            <= (static_cast<std::size_t>((end) - (begin))                  \
+                - static_cast<std::size_t>(size))))
 
 //! @brief The main `sbepp` namespace
 namespace sbepp
@@ -3479,8 +3485,8 @@ public:
         SBEPP_SIZE_CHECK(
             (*this)(addressof_tag{}),
             (*this)(end_ptr_tag{}),
-            0,
-            sizeof(size_type) + count);
+            sizeof(size_type),
+            count);
         set_primitive<E>((*this)(addressof_tag{}), count);
     }
 
@@ -3669,8 +3675,8 @@ private:
         SBEPP_SIZE_CHECK(
             (*this)(detail::addressof_tag{}),
             (*this)(detail::end_ptr_tag{}),
-            0,
-            sizeof(size_type) + size());
+            sizeof(size_type),
+            size());
         return data_unchecked();
     }
 
